@@ -212,9 +212,17 @@ class CommandDriver(Monitor):
                 pooled = frozenset(
                     i.identity for i in h.schd.pool.get_tasks()
                 ) if hasattr(h.schd, 'pool') else frozenset()
-                r = inject_command(h, c['name'], c['kwargs'])
+                kwargs = self.resolve(h, c)
+                if kwargs is None:
+                    continue
+                r = inject_command(h, c['name'], kwargs)
                 self.done.append((CLOCK.t, h.incarnation, it, c['name'],
-                                  c['kwargs'], r, pooled))
+                                  kwargs, r, pooled))
+
+    def resolve(self, h, c):
+        """Return the kwargs for a due command (subclasses may pick targets
+        from the current state; None skips the command)."""
+        return c['kwargs']
 
 
 def snapshot(h):
